@@ -522,8 +522,10 @@ fn positions(t: &IntTy, spec: &Value, w: &mut WorkerCtx)
 {
 	let max: u128 = if t.signed { (1u128 << (t.bits - 1)) - 1 } else if t.bits == 128 { u128::MAX } else { (1u128 << t.bits) - 1 };
 	let values: Vec<(u128, bool)> = if t.bits == 128 && !t.signed { vec![(max, true)] } else { vec![(max, true), (max + 1, false)] };
-	for (pi, (pname, decls, stmts, prints)) in POSITIONS.iter().enumerate()
+	for (pi, context) in (0..POSITIONS.len()).flat_map(|pi| (0..crate::checks::c07::CONTEXTS.len()).map(move |c| (pi, c)))
 	{
+		let (pname, decls, stmts, prints) = &POSITIONS[pi];
+		let pname = &if context == 0 { pname.to_string() } else { format!("{pname} in a {}", crate::checks::c07::CONTEXTS[context]) };
 		let mut head = String::new();
 		let mut body = String::new();
 		for (n, (value, _)) in values.iter().enumerate()
@@ -532,10 +534,11 @@ fn positions(t: &IntTy, spec: &Value, w: &mut WorkerCtx)
 			head.push_str(&fill(decls));
 			body.push_str(&fill(stmts));
 		}
+		let body = crate::checks::c07::wrap_in_context(&body, context);
 		let text = format!("{head}fn main() -> u8\n{{\n{body}\treturn: 0\n}}\n");
 		w.result.states += values.len() as u64;
 		w.result.transitions += values.len() as u64;
-		let desc = || json!({"kind": "positions", "type": spec["type"], "position": pi, "text": text, "sig_hint": format!("positions:{pname}")});
+		let desc = || json!({"kind": "positions", "type": spec["type"], "position": pi, "context": context, "text": text, "sig_hint": format!("positions:{pname}")});
 		let d = desc().to_string().into_bytes();
 		let src = text.clone();
 		let outcome = w.run_case(&d, || {
